@@ -887,12 +887,38 @@ func appendElemsInto(f *ssa.Function, v ssa.Value) []*ssa.Call {
 		reach[x] = true
 		switch y := x.(type) {
 		case *ssa.Phi:
+			if rv := core.ResolvedPhi(y); rv != nil {
+				rec(rv)
+				return
+			}
 			for _, e := range y.Edges {
 				rec(e)
 			}
 		case *ssa.Call:
 			if isBuiltin(y, "append") {
 				rec(y.Common().Args[0])
+			}
+		case *ssa.UnOp:
+			// a list kept in a field of a local struct: every value stored into that field of that struct
+			fa, isFA := y.X.(*ssa.FieldAddr)
+			if y.Op != token.MUL || !isFA {
+				return
+			}
+			base := stripResolved(fa.X)
+			if _, isAl := base.(*ssa.Alloc); !isAl {
+				return
+			}
+			for _, b := range f.Blocks {
+				for _, ins := range b.Instrs {
+					st, isSt := ins.(*ssa.Store)
+					if !isSt {
+						continue
+					}
+					sfa, isSFA := st.Addr.(*ssa.FieldAddr)
+					if isSFA && sfa.Field == fa.Field && stripResolved(sfa.X) == base {
+						rec(st.Val)
+					}
+				}
 			}
 		}
 	}
@@ -1283,4 +1309,20 @@ func termMentionsLenOf(t *core.Term, list string) bool {
 		}
 	})
 	return found
+}
+
+// stripResolved follows phis that are pinned to one operand wherever they are used.
+func stripResolved(v ssa.Value) ssa.Value {
+	for i := 0; i < 8; i++ {
+		p, ok := v.(*ssa.Phi)
+		if !ok {
+			return v
+		}
+		rv := core.ResolvedPhi(p)
+		if rv == nil {
+			return v
+		}
+		v = rv
+	}
+	return v
 }
